@@ -3,7 +3,10 @@ use crate::server::ServerParameters;
 use crate::stats::pool::PoolStats;
 use bytes::{Buf, BufMut, BytesMut};
 use log::{error, info, trace};
+#[cfg(not(pgcat_verif))]
 use nix::sys::signal::{self, Signal};
+#[cfg(pgcat_verif)]
+use crate::verif::signal::{self, Signal};
 use nix::unistd::Pid;
 use std::collections::HashMap;
 /// Admin database.
